@@ -483,4 +483,83 @@ macro_rules! writer_harness {
     };
 }
 
+pub(crate) static mut SEEN_LEVELS: u32 = 0x5EED_0301;
+pub(crate) static mut SEEN_ROOT: u64 = 0x5EED_0302;
+
+pub(crate) fn trailer_recorder<W: io::Write>(m: &crate::metadata::Metadata, mut writer: W) -> io::Result<usize> {
+    unsafe {
+        SEEN_LEVELS = m.index_levels as u32;
+        SEEN_ROOT = m.index_block_offset;
+    }
+    writer.write_all(&ZEROS[..22])?;
+    Ok(22)
+}
+
+/// C01 (depth): finishing an empty writer with `levels` index levels does not overflow and records `levels` in the trailer.
+pub(crate) fn depth_check(levels: usize) {
+    abs_reset_all();
+    let mut index_block_writers = Vec::with_capacity(levels + 1);
+    let mut l = 0;
+    while l <= levels {
+        index_block_writers.push(abs_writer(1, 8));
+        l += 1;
+    }
+    let w = Writer {
+        block_writer: abs_writer(0, 8),
+        index_block_writers,
+        compression_type: CompressionType::None,
+        compression_level: 0,
+        block_size: 1024,
+        entries_count: 0,
+        writer: CountWrite::new(CountSink { n: 0, flushes: 0 }),
+    };
+    unsafe {
+        EXP_LEN = MAXFILE;
+        EXP_POS = 0;
+        EXP_BLOCKS = 0;
+    }
+    match w.into_inner() {
+        Ok(sink) => unsafe {
+            assert!(SEEN_LEVELS as usize == levels, "C01: the trailer does not record the configured number of index levels");
+            assert!(SEEN_ROOT == 0 && EXP_BLOCKS == 1 && sink.n == 8 + 12 + 22, "empty file: one empty root block at offset 0, then the trailer");
+        },
+        Err(e) => {
+            mem::forget(e);
+            panic!("into_inner failed");
+        }
+    }
+}
+
+macro_rules! depth_harness {
+    ($name:ident, $levels:expr, $unwind:expr) => {
+        #[kani::proof]
+        #[kani::unwind($unwind)]
+        #[kani::stub(crate::writer::compress_and_write_block, crate::writer::verif_h::abs_cwb)]
+        #[kani::stub(crate::metadata::Metadata::write_into, crate::writer::verif_h::trailer_recorder)]
+        #[kani::stub(crate::block_writer::BlockWriter::insert, crate::block_writer::verif_h::abs_insert)]
+        #[kani::stub(crate::block_writer::BlockWriter::current_size_estimate, crate::block_writer::verif_h::abs_size)]
+        #[kani::stub(crate::block_writer::BlockWriter::last_key, crate::block_writer::verif_h::abs_last_key)]
+        fn $name() {
+            depth_check($levels);
+            kani::cover!(true);
+        }
+    };
+}
+depth_harness!(c01_depth_0, 0, 10);
+depth_harness!(c01_depth_3, 3, 10);
+
+/// C15: the public block-size setter clamps to the real minimum (1024) for every usize.
+#[kani::proof]
+fn c15_clamp() {
+    let s: usize = kani::any();
+    let mut b = WriterBuilder::new();
+    b.block_size(s);
+    assert!(b.block_size == if s < 1024 { 1024 } else { s });
+    assert!(WriterBuilder::new().block_size == 8192);
+    kani::cover!(s == 1023);
+    kani::cover!(s == 1024);
+    kani::cover!(s == 0);
+    kani::cover!(s == usize::MAX);
+}
+
 include!("writer_gen.rs");
